@@ -27,6 +27,9 @@ import (
 //	cfg limit=<n> cache=<0|1> inst=<1..3> comp=<0|1>
 //	run <ex|pr|exh|prh|dyn> <ex|pr> <hdr|-> <ilogs> <ok|f<k>|p<k>> <decl> <prog> <route> <inputs>
 //	    inputs := "-" | in ("," in)*    in := (s|c|b) ":" c<vals> | "x"      (x = cancel)
+//	    an optional last word z<n> | r<n> puts n bytes of compressible / incompressible ballast into the
+//	    stream state, so the cursor tokens (gob + zstd + seal) span sizes from 100 B to over 1 MiB; the
+//	    model ignores it: behaviour must not depend on the size of the state
 //
 // Observation: "pipe <view> | http <view>", view = "H<hdr|-> <items|-> <fin|err:<kind>|cancel|idle>".
 
@@ -38,6 +41,7 @@ type c11Params struct {
 	IOut  string `vgirpc:"iout"`
 	Decl  int64  `vgirpc:"decl"`
 	Rec   string `vgirpc:"rec"`
+	Pad   string `vgirpc:"pad"`
 }
 
 var c11ParamsSchema = arrow.NewSchema([]arrow.Field{
@@ -48,6 +52,7 @@ var c11ParamsSchema = arrow.NewSchema([]arrow.Field{
 	{Name: "iout", Type: arrow.BinaryTypes.String},
 	{Name: "decl", Type: arrow.PrimitiveTypes.Int64},
 	{Name: "rec", Type: arrow.BinaryTypes.String},
+	{Name: "pad", Type: arrow.BinaryTypes.String},
 }, nil)
 
 func c11Handler(dynamic bool) func(context.Context, *vgirpc.CallContext, c11Params) (*vgirpc.StreamResult, error) {
@@ -61,7 +66,7 @@ func c11Handler(dynamic bool) func(context.Context, *vgirpc.CallContext, c11Para
 		if strings.HasPrefix(p.IOut, "p") {
 			panic("panic-" + p.IOut[1:])
 		}
-		res := &vgirpc.StreamResult{OutputSchema: scriptValueSchema, State: newScriptState(p.Kind, "absent", p.Prog, p.Rec)}
+		res := &vgirpc.StreamResult{OutputSchema: scriptValueSchema, State: newScriptStatePad(p.Kind, "absent", p.Prog, p.Rec, p.Pad)}
 		if p.Kind == "ex" && (!dynamic || p.Decl != 0) {
 			res.InputSchema = scriptValueSchema
 		}
@@ -92,7 +97,7 @@ func init() {
 		NonTrivial: func(lines []string) bool {
 			for _, l := range lines {
 				f := strings.Fields(l)
-				if len(f) == 10 && f[0] == "run" && f[5] == "ok" && f[7] != "-" {
+				if (len(f) == 10 || len(f) == 11) && f[0] == "run" && f[5] == "ok" && f[7] != "-" {
 					return true
 				}
 			}
@@ -112,6 +117,7 @@ type c11Session struct {
 	iout         string
 	decl         int64
 	prog         string
+	pad          string
 	route        []int
 	inputs       []c11Input
 }
@@ -123,10 +129,19 @@ type c11Input struct {
 }
 
 func parseC11Run(f []string) (*c11Session, bool) {
-	if len(f) != 10 {
+	if len(f) != 10 && len(f) != 11 {
 		return nil, false
 	}
 	s := &c11Session{method: f[1], kind: f[2], iout: f[5], prog: f[7]}
+	if len(f) == 11 {
+		if len(f[10]) < 2 || (f[10][0] != 'z' && f[10][0] != 'r') {
+			return nil, false
+		}
+		if n, err := strconv.Atoi(f[10][1:]); err != nil || n <= 0 || n > 4<<20 {
+			return nil, false
+		}
+		s.pad = f[10]
+	}
 	switch s.method {
 	case "ex", "exh":
 		if s.kind != "ex" {
@@ -221,7 +236,7 @@ func (s *c11Session) initBatch(rec string) arrow.RecordBatch {
 		b.Append(v)
 		return b.NewArray()
 	}
-	cols := []arrow.Array{str(s.prog), str(s.kind), i64(s.hdr), i64(s.ilogs), str(s.iout), i64(s.decl), str(rec)}
+	cols := []arrow.Array{str(s.prog), str(s.kind), i64(s.hdr), i64(s.ilogs), str(s.iout), i64(s.decl), str(rec), str(s.pad)}
 	batch := array.NewRecordBatch(c11ParamsSchema, cols, 1)
 	for _, c := range cols {
 		c.Release()
@@ -643,6 +658,8 @@ func c11DiffClass(s *c11Session, pv, hv clientView) string {
 		return "header-differs-" + kind
 	case tokenKeyEmit:
 		return "emit-metadata-token-key-changes-http-view"
+	case s.pad != "" && (strings.Contains(hv.term, "badToken") || strings.HasPrefix(hv.term, "http")):
+		return "large-state-token-refused-over-http"
 	case kind == "dynamic" && s.kind == "ex" && hasCast && s.decl == 1:
 		return "dynamic-declared-input-schema-not-applied"
 	case strings.Join(pv.items, ",") != strings.Join(hv.items, ","):
